@@ -309,6 +309,8 @@ def _fn():
 def make_zoo():
     z = [
         float("inf"), float("-inf"), float("nan"), 10 ** 400, -10 ** 400, 1e308, -1e308, 5e-324,
+        # finite floats of middle magnitude (more digits than a 28-digit decimal context once quantized)
+        1e27, -3.3e22, 123456789012345.67, 2.0 ** 70 + 0.0,
         decimal.Decimal("1.5"), fractions.Fraction(1, 3), complex(1, 2),
         (1, 2), (), {1, 2}, frozenset([1]), bytearray(b"ab"), range(3), register("memoryview", memoryview(b"ab")),
         register("strsub", StrSub("ab")), register("intsub", IntSub(7)),
